@@ -371,7 +371,33 @@ def declared_case(rule: str, n: int):
     return seq, preset
 
 
+def run_grouped_restart(case: dict) -> list[str]:
+    """Several containers through one grouped stream, the first one holding namespace bindings
+    but no statement: whatever the entry point does between containers, writer and reader
+    tables must stay mirrored (the reference decoder reads what was meant)."""
+    from mc import drivers as DR  # noqa: PLC0415
+    from mc.checks import c14  # noqa: PLC0415
+    from mc.terms import DEFAULT, I, L  # noqa: PLC0415
+
+    DR.ensure_rdflib_plugin()
+    api, cls = case["api"], case["cls"]
+    binds = [("a", "http://a.example/ns#"), ("b", "http://b.example/vocab/")]
+    seq = [(I("http://b.example/vocab/s"), I("http://a.example/ns#p"), L("x")),
+           (I("http://a.example/ns#s"), I("http://b.example/vocab/p"), I("http://b.example/vocab/o"))]
+    if cls == "quad":
+        seq = [(*seq[0], DEFAULT), (*seq[1], I("http://a.example/ns#g"))]
+    src_ns = list(binds) if api == "generic" else [
+        (p, str(u)) for p, u in c14.r_source(cls, [], binds).namespaces()]
+    import mc.terms as T  # noqa: PLC0415
+
+    fails = c14._grouped(api, cls, [[], seq], binds, (8, 3, 0), src_ns, T.norm_seq(seq),
+                         api == "rdflib", "an empty first container with bindings")
+    return [m for _, m in fails]
+
+
 def run_declared(case: dict) -> list[str]:
+    if case["rule"] == "grouped-restart":
+        return run_grouped_restart(case)
     from mc import drivers as DR  # noqa: PLC0415
     from mc import jspec  # noqa: PLC0415
     from mc import terms as T  # noqa: PLC0415
@@ -397,6 +423,10 @@ def shard4(job) -> dict:
     rule, n = job
     acc = pool.Acc()
     case = {"layer": 4, "rule": rule, "n": n}
+    if rule == "grouped-restart":
+        api, cls = n
+        case = {"layer": 4, "rule": rule, "n": 0, "api": api, "cls": cls}
+        n = 0
     acc.evals = n + 5
     for msg in run_declared(case):
         acc.violation({"layer": 4, "rule": rule}, f"table size {n}: {msg}", case)
@@ -444,6 +474,8 @@ def run(ctx) -> None:
                 (8, 9, 127, 128, 129, 1000, 4095, 4096, 4097, 4098, 5000, 8192, 16384, 20000):
             if not (rule == "name" and n < 8):
                 jobs.append(("l4", (rule, n)))
+    for api, cls in (("generic", "quad"), ("rdflib", "triple"), ("rdflib", "quad")):
+        jobs.append(("l4", ("grouped-restart", (api, cls))))
     # biggest first so the pool stays busy
     def weight(j):
         if j[0] == "l1":
@@ -451,7 +483,7 @@ def run(ctx) -> None:
         if j[0] == "l2":
             return min(j[1][5], 60000) * 30
         if j[0] in ("l3", "l4"):
-            return j[1][1] * 40
+            return (j[1][1] if isinstance(j[1][1], int) else 1) * 40
         return 7 ** (j[1][1] + 2)
     jobs.sort(key=weight, reverse=True)
     merged = pool.merge(pool.pmap(_dispatch, jobs))
